@@ -10,6 +10,7 @@ from harness.threadctl import Controller, TPinger, Abort
 
 core = poxenv.boot()
 import pox.openflow                      # noqa: E402
+import pox.openflow.libopenflow_01       # noqa: E402
 import pox.openflow.of_01 as of_01       # noqa: E402
 import pox.lib.util as putil             # noqa: E402
 
@@ -28,6 +29,16 @@ def fatal_error(salt):
   import os
   e = FATAL_ERRNOS[salt % len(FATAL_ERRNOS)]
   return socket.error(e, os.strerror(e))
+
+
+class _Msg(pox.openflow.libopenflow_01.ofp_header):
+  """a message object whose wire form is the given bytes"""
+  def __init__(self, raw):
+    pox.openflow.libopenflow_01.ofp_header.__init__(self)
+    self._raw = raw
+
+  def pack(self):
+    return self._raw
 
 
 class FakeSock(object):
@@ -257,6 +268,10 @@ class Adapter(object):
     if a == "CoopCall":
       n = args["n"]
       data = bytes(10 * n + i for i in range(1, 4))
+      if n % 2 == 0:
+        # Connection.send takes raw bytes or a message object (it packs objects itself): every other message is
+        # handed over as an object - the bytes that reach the socket must be the same either way
+        data = _Msg(data)
       self.cur = args["c"]
       self.cmds.append(("send", args["c"], data))
       ctl.run_until(self.C, ("flag.read", "cmd.get"))
